@@ -873,6 +873,10 @@ impl<const V: usize> Exec<V> {
                 let m = self.pick_m(*m);
                 let size = HEADER_BYTES + ((*size as usize) & !7).min(4096);
                 let mut total = (*kb as usize) * 1024;
+                if self.case.plan == "PageProtect" {
+                    // every object occupies (and protects) whole pages: keep the object count comparable
+                    total /= 48;
+                }
                 if self.is_nogc {
                     let budget = (self.case.heap_kb as usize) * 1024 / 3;
                     total = total.min(64 * 1024).min(budget.saturating_sub(self.nogc_allocated + 65536));
@@ -1078,7 +1082,7 @@ impl<const V: usize> Exec<V> {
     }
 
     fn concurrent_marking_active(&self) -> bool {
-        false
+        mmtk::verif::concurrent_marking_in_progress(self.mmtk) == Some(true)
     }
 
     fn eph_chain(&mut self, m: usize, r: usize, k: usize) {
@@ -1679,9 +1683,64 @@ impl<const V: usize> Exec<V> {
             // free = total - reserved; must never exceed total
             self.violate("C09", "free-plus-used", format!("GC #{}: free_bytes {} + used_bytes {} exceeds total_bytes {}", self.gcs_seen, free, used, total));
         }
+        if self.case.plan.contains("Immix") || true {
+            self.check_immix_lines();
+        }
+        if self.concurrent_marking_active() {
+            cnt!(self, "pause_started_concurrent_marking");
+        }
         if exhaustive {
             cnt!(self, "gc_exhaustive_full");
             self.post_exhaustive_checks(&visited);
+        }
+    }
+
+    /// C34: the hole search never yields a line overlapped by a live object.
+    fn check_immix_lines(&mut self) {
+        if self.concurrent_marking_active() {
+            // an initial-mark pause has not marked anything yet
+            return;
+        }
+        let views = mmtk::verif::immix_views(self.mmtk);
+        if views.is_empty() {
+            return;
+        }
+        const LINE: usize = 256;
+        for v in &views {
+            // live lines of this space
+            let mut live: std::collections::BTreeMap<usize, u64> = Default::default();
+            let mut big = 0;
+            for o in self.objs.values() {
+                if o.state == State::Live && o.space == v.name {
+                    let s = (o.addr - self.ro) & !(LINE - 1);
+                    let e = (o.addr - self.ro + o.size - 1) & !(LINE - 1);
+                    let mut l = s;
+                    while l <= e {
+                        live.insert(l, o.id);
+                        l += LINE;
+                    }
+                    if (e - s) / LINE + 1 >= 3 {
+                        big += 1;
+                    }
+                }
+            }
+            let mut holes = 0;
+            for b in &v.blocks {
+                for (hs, he) in &b.holes {
+                    holes += 1;
+                    if let Some((l, id)) = live.range(hs.as_usize()..he.as_usize()).next() {
+                        let idx = (*l - b.start.as_usize()) / LINE;
+                        let d = format!("GC #{}: space {}: hole [{:#x},{:#x}) returned by get_next_available_lines contains line {:#x} of live object id {} (line mark {}, current state {}, unavail state {}, block state byte {})", self.gcs_seen, v.name, hs.as_usize(), he.as_usize(), l, id, b.line_marks.get(idx).copied().unwrap_or(0), v.line_mark_state, v.line_unavail_state, b.state_byte);
+                        self.violate("C34", "live-line-in-hole", d);
+                        return;
+                    }
+                }
+            }
+            cnt!(self, "c34_spaces_checked");
+            cnt!(self, "c34_holes_checked", holes);
+            if big > 0 && holes > 0 {
+                cnt!(self, "c34_straddling_object_next_to_holes");
+            }
         }
     }
 
